@@ -39,7 +39,11 @@ func caseGen() *rapid.Generator[Case] {
 	if h.Thorough() {
 		max = 14
 	}
+	mutKey := gen.IfaceItem([]string{"k", "h1", "h2", "name", "é", "n"}, 1)
 	key := rapid.Custom(func(t *rapid.T) gen.Item {
+		if rapid.IntRange(0, 3).Draw(t, "mutable-key") == 0 {
+			return mutKey.Draw(t, "mkey") // a heading whose item can change later (mutate + Update on the header cell)
+		}
 		return gen.S(gen.StringOf([]string{"k", "h1", "h2", "h3", "name", "x y", "é", "\"q\""}, 1, 2).Draw(t, "key"))
 	})
 	opts := gen.ScriptOpts{AllowProps: true, AllowRowErr: true, Item: itemGen(), HdrItem: key, MinOps: 0, MaxOps: max, MaxCells: 3, HdrCells: [2]int{1, 5}, ForceHdr: true, MultiHdr: true, AllowMutate: true, AllowCopy: true, Creators: Creators}
